@@ -238,15 +238,15 @@ Qed.
 
 (* decidable equality of items, for multiplicities *)
 Lemma pos_eq_dec : forall a b : pos, {a = b} + {a <> b}.
-Proof. decide equality; apply N.eq_dec. Qed.
+Proof. decide equality; apply N.eq_dec. Defined.
 Lemma range_eq_dec : forall a b : range, {a = b} + {a <> b}.
-Proof. decide equality; apply pos_eq_dec. Qed.
+Proof. decide equality; apply pos_eq_dec. Defined.
 Lemma str_eq_dec : forall a b : str, {a = b} + {a <> b}.
-Proof. apply list_eq_dec. apply N.eq_dec. Qed.
+Proof. apply list_eq_dec. apply N.eq_dec. Defined.
 Lemma dclass_eq_dec : forall a b : L.dclass, {a = b} + {a <> b}.
-Proof. decide equality. Qed.
+Proof. decide equality. Defined.
 Lemma dmsg_eq_dec : forall a b : dmsg, {a = b} + {a <> b}.
-Proof. decide equality; try apply str_eq_dec; try apply N.eq_dec; apply dclass_eq_dec. Qed.
+Proof. decide equality; try apply str_eq_dec; try apply N.eq_dec; apply dclass_eq_dec. Defined.
 Definition diag_eq_dec : forall a b : diag, {a = b} + {a <> b}.
 Proof. decide equality; try apply str_eq_dec; try apply N.eq_dec; try apply range_eq_dec; apply dmsg_eq_dec. Defined.
 
@@ -474,3 +474,67 @@ Proof.
   unfold report in *. cbn [map app] in Hout. rewrite filter_app, (filter_none _ _ Hout), app_nil_r.
   apply Permutation_refl.
 Qed.
+
+(* ========================================================================================== *)
+(* 7. C15 and C16 read on the response                                                        *)
+(* ========================================================================================== *)
+
+Lemma filter_filter_sub {A} (p q : A -> bool) l :
+  (forall x, p x = true -> q x = true) -> filter p (filter q l) = filter p l.
+Proof.
+  intro H. induction l as [|x l IH]; [reflexivity|]. cbn [filter].
+  destruct (q x) eqn:Q; cbn [filter]; [rewrite IH; reflexivity|].
+  destruct (p x) eqn:P; [rewrite (H x P) in Q; discriminate | exact IH].
+Qed.
+
+(* the "Unused var" warnings / the "Var name already declared" errors among the items *)
+Definition is_unused_item (d : diag) : bool :=
+  match d_msg d with MUnused c _ => c =? U.CL_UNUSED | _ => false end.
+Definition is_dup_item (d : diag) : bool :=
+  match d_msg d with MUnused c _ => negb (c =? U.CL_UNUSED) | _ => false end.
+
+Lemma unused_item_origin d : is_unused_item d = true -> (origin d =? 1) = true.
+Proof. unfold is_unused_item, origin. destruct (d_msg d); [discriminate | reflexivity | discriminate]. Qed.
+Lemma dup_item_origin d : is_dup_item d = true -> (origin d =? 1) = true.
+Proof. unfold is_dup_item, origin. destruct (d_msg d); [discriminate | reflexivity | discriminate]. Qed.
+
+(* C15 on the response: the unused-variable warnings the client receives are exactly the specified ones, in the
+   specified order (every tree, every list of parser diagnostics) *)
+Theorem report_unused_exact t pd : filter is_unused_item (report t pd) = map of_uv (UP.unused_spec t).
+Proof.
+  rewrite <- (filter_filter_sub is_unused_item (fun d => origin d =? 1) _ unused_item_origin).
+  change (filter (fun d => origin d =? 1) (report t pd)) with (part 1 (report t pd)).
+  rewrite report_part. unfold own_report. cbn [N.eqb Pos.eqb]. unfold alone_unused.
+  rewrite (UP.filter_map_comm is_unused_item U.is_unused_diag of_uv) by (intro a; reflexivity).
+  f_equal. apply (UP.unused_exact_eq U.key_today t UP.key_ci_today).
+Qed.
+
+Theorem report_dups_exact t pd : filter is_dup_item (report t pd) = map of_uv (UP.dup_spec t).
+Proof.
+  rewrite <- (filter_filter_sub is_dup_item (fun d => origin d =? 1) _ dup_item_origin).
+  change (filter (fun d => origin d =? 1) (report t pd)) with (part 1 (report t pd)).
+  rewrite report_part. unfold own_report. cbn [N.eqb Pos.eqb]. unfold alone_unused.
+  rewrite (UP.filter_map_comm is_dup_item (fun d => negb (U.is_unused_diag d)) of_uv) by (intro a; reflexivity).
+  f_equal. apply (UP.dups_exact_eq U.key_today t UP.key_ci_today).
+Qed.
+
+(* ... and per method: UnusedVarAnalyzer's part of the response is, in order, the report of each method node *)
+Theorem report_unused_per_method t pd :
+  part 1 (report t pd) = flat_map (fun m => map of_uv (UP.method_report U.key_today m)) (UP.all_methods t).
+Proof.
+  rewrite report_part. unfold own_report. cbn [N.eqb Pos.eqb]. unfold alone_unused, U.analyze_today.
+  rewrite UP.report_decomposes. apply LP.map_flat_map.
+Qed.
+
+(* C16 on the response: the rule checkers' items are, as a multiset, one per declaration satisfying its rule *)
+Theorem report_rules_exact t pd :
+  LP.RootNotFunction t = true ->
+  Permutation (report t pd) (map of_pdiag pd ++ map of_uv (U.analyze_today t) ++ map of_lint (LP.lints_spec t)).
+Proof.
+  intro H. eapply Permutation_trans; [apply report_permutation_lints|].
+  rewrite (LP.lints_exact_eq t H). apply Permutation_refl.
+Qed.
+
+(* a compact view of an item, for the examples: source, severity, start of the range *)
+Definition brief (d : diag) : N * N * N * N :=
+  (origin d, d_sev d, pline (rstart (d_range d)), pcol (rstart (d_range d))).
